@@ -97,6 +97,8 @@ def run_variant(v, tier="quick"):
             ok = v["rule"] in out
     elif expect == "silent":
         ok = rc == 0
+    elif expect == "undecided":  # the check notices that it cannot decide (exit 2), and claims no violation
+        ok = rc == 2 and "VIOLATION" not in out
     elif expect == "not-violated":  # PROVED or UNDECIDED, never VIOLATED
         ok = rc in (0, 2) and "VIOLATION" not in out
     else:
